@@ -137,8 +137,9 @@ def main(argv):
         print(f"CHECKER-ERROR builtin axiom disagrees with CPython: {ax_bad[:3]}")
         return 3
     # ---- proof obligations
-    djobs = max(1, args.jobs // max(1, len(P.prove)))  # spare cores discharge one function's obligations in parallel
-    tasks = [(tuple(P.sidecars), k, djobs) for k in P.prove]
+    targets = list(P.prove) + (list(P.prove_thorough) if args.tier == "thorough" else [])
+    djobs = max(1, args.jobs // max(1, len(targets)))  # spare cores discharge one function's obligations in parallel
+    tasks = [(tuple(P.sidecars), k, djobs) for k in targets]
     results = []
     if tasks:
         nproc = max(1, min(args.jobs, len(tasks)))
